@@ -74,6 +74,10 @@ type Config struct {
 	TrackIss     string `json:"track_iss,omitempty"`      // JWTTrackedRequestCodec.Issuer ("" = root URL)
 	SessLifeS    int    `json:"sess_life_s,omitempty"`    // JWTSessionCodec.MaxAge and CookieSessionProvider.MaxAge (0 = 3600)
 	SessDomain   string `json:"sess_domain,omitempty"`    // CookieSessionProvider.Domain override
+
+	// the transport between browser and middleware, and what the CLIENT controls in it
+	BehindProxy   bool     `json:"behind_proxy,omitempty"`   // https deployment behind a TLS-terminating proxy: requests arrive without TLS
+	ClientHeaders []string `json:"client_headers,omitempty"` // "Name: value" headers on EVERY request the browser sends (Host: overrides the Host header)
 }
 
 // Action is one step of a history.  Flow / Resp / Other are resolved modulo the
@@ -107,6 +111,11 @@ type Case struct {
 	Config  Config   `json:"config"`
 	Actions []Action `json:"actions"`
 }
+
+// client-controlled request headers: none of them may change cookie attributes or redirect targets
+var clientHeaderPool = []string{"X-Forwarded-Proto: http", "X-Forwarded-Proto: https, http", "X-Forwarded-Proto: https", "X-Forwarded-Proto: HTTP", "X-Forwarded-Host: evil.example", "X-Forwarded-For: 10.0.0.1",
+	"Forwarded: for=10.0.0.1;proto=http;host=evil.example", "X-Forwarded-Scheme: http", "X-Forwarded-Ssl: off", "Front-End-Https: off", "X-Forwarded-Port: 80", "X-Forwarded-Prefix: //evil.example",
+	"Origin: https://evil.example", "Origin: null", "Referer: https://evil.example/landing", "Host: evil.example", "Host: SP.EXAMPLE.COM", "X-Original-URL: //evil.example/x", "X-Rewrite-URL: /admin"}
 
 var (
 	cookieModes = []string{"faithful", "none", "only-own", "only-other", "all-but-own", "tampered-own", "renamed-own", "swapped", "session-as-tracking", "own-plus-junk", "resurrect-own", "forged-own", "alg-none-own", "swap-alg-own", "alias"}
@@ -148,6 +157,10 @@ func gen(t *rapid.T) Case {
 		c.Config.Artifact = rapid.Bool().Draw(t, "artifact")
 		c.Config.CtxClass = rapid.Bool().Draw(t, "ctxclass")
 		c.Config.SessDomain = rapid.SampledFrom([]string{"", "", "example.com"}).Draw(t, "sessdomain")
+	}
+	if rapid.Bool().Draw(t, "vary-transport") {
+		c.Config.BehindProxy = rapid.Bool().Draw(t, "behindproxy")
+		c.Config.ClientHeaders = rapid.SliceOfNDistinct(rapid.SampledFrom(clientHeaderPool), 0, 3, func(s string) string { return strings.SplitN(s, ":", 2)[0] }).Draw(t, "clientheaders")
 	}
 	if rapid.Bool().Draw(t, "vary-codecs") {
 		c.Config.TrackPrefix = rapid.SampledFrom([]string{"", "trk-", "-", "saml_x_"}).Draw(t, "trackprefix")
@@ -586,10 +599,19 @@ func (w *world) do(method, target string, form url.Values, cookies []kv) (rec *h
 	req.URL = u
 	req.RequestURI = target
 	req.Host = w.root.Host
-	if w.https {
+	if w.https && !w.cfg.BehindProxy {
 		req.TLS = &tls.ConnectionState{}
 	} else {
 		req.TLS = nil
+	}
+	for _, h := range w.cfg.ClientHeaders {
+		if kv := strings.SplitN(h, ":", 2); len(kv) == 2 {
+			if strings.EqualFold(kv[0], "Host") {
+				req.Host = strings.TrimSpace(kv[1])
+			} else {
+				req.Header.Set(kv[0], strings.TrimSpace(kv[1]))
+			}
+		}
 	}
 	if form != nil {
 		req.Header.Set("Content-Type", "application/x-www-form-urlencoded")
@@ -1450,6 +1472,15 @@ func validConfig(c Config) bool {
 	default:
 		return false
 	}
+	if len(c.ClientHeaders) > 8 {
+		return false
+	}
+	for _, h := range c.ClientHeaders {
+		kv := strings.SplitN(h, ":", 2)
+		if len(kv) != 2 || kv[0] == "" || strings.ContainsAny(h, "\r\n") || strings.EqualFold(kv[0], "Cookie") || strings.EqualFold(kv[0], "Content-Type") || strings.EqualFold(kv[0], "Content-Length") {
+			return false
+		}
+	}
 	if (c.TrackLifeS != 0 && (c.TrackLifeS < 10 || c.TrackLifeS > 3000)) || (c.SessLifeS != 0 && c.SessLifeS < 60) || c.TrackCookieS < 0 || c.SameSite < 0 || c.SameSite > 4 {
 		return false
 	}
@@ -1487,6 +1518,12 @@ func check(c Case) (res pbt.Result) {
 	}
 	if c.Config.EntityID != "" {
 		w.classes["cfg:entity-id"] = true
+	}
+	if c.Config.BehindProxy && w.https {
+		w.classes["transport:https-behind-proxy"] = true
+	}
+	for _, h := range c.Config.ClientHeaders {
+		w.classes["client-header:"+strings.SplitN(h, ":", 2)[0]] = true
 	}
 	if c.Config.TrackPrefix != "" {
 		w.classes["cfg:track-prefix="+c.Config.TrackPrefix] = true
@@ -1564,7 +1601,8 @@ func enumDFS(tier string, emit func(Case)) {
 	cfgB := Config{Key: "spec", Root: "http://sp.example.com/", Binding: "post", RelayMode: "counter", LifetimeS: 90, DefaultURI: "/home"}
 	cfgC := Config{Key: "sp", Root: "https://sp.example.com:8443/app/", Binding: "post", RelayMode: "byurl", LifetimeS: 30, CookieName: "saml_session", SignReq: true, BrowserExpires: true}
 	cfgD := Config{Key: "sp", Root: "https://sp.example.com/", Binding: "redirect", RelayMode: "special", LifetimeS: 90, TrackLifeS: 45, TrackPrefix: "trk-", TrackAlg: "RS512", TrackAud: "urn:track:aud",
-		EntityID: "urn:example:sp", DefaultURI: "home", SameSite: 2, ForceAuthn: true, Artifact: true, SessLifeS: 120}
+		EntityID: "urn:example:sp", DefaultURI: "home", SameSite: 2, ForceAuthn: true, Artifact: true, SessLifeS: 120,
+		BehindProxy: true, ClientHeaders: []string{"X-Forwarded-Proto: http", "X-Forwarded-Host: evil.example", "Origin: https://evil.example", "Forwarded: for=10.0.0.1;proto=http;host=evil.example"}}
 	redCM := []string{"faithful", "none", "only-own", "only-other", "tampered-own", "renamed-own", "session-as-tracking", "alias", "swap-alg-own"}
 	redRM := []string{"echo", "other", "absent", "attacker", "arbitrary"}
 	minCM := []string{"faithful", "none", "only-own", "only-other", "tampered-own", "renamed-own", "session-as-tracking"}
@@ -1635,6 +1673,7 @@ var prop = &pbt.Prop[Case]{
 		"for ECDSA SP keys the IdP is given the SP metadata without the encryption key descriptor (an EC certificate cannot receive RSA-OAEP; see C07)",
 		"custom RelayStateFunc values are valid cookie names (they may need URL escaping: \"flow+1&b#c%41!~\")",
 		"a relative DefaultRedirectURI (\"home\") may be resolved against the ACS URL (as the browser would) or against the root URL",
+		"the browser may add any client-controlled request header (X-Forwarded-*, Forwarded, Origin, Referer, another Host) to every request, and an https deployment may sit behind a TLS-terminating proxy (requests arrive without TLS): neither changes an expectation - Secure follows the CONFIGURED root URL",
 		"every public Options / tracker / codec field a clause does not mention is varied and must not change a verdict; the tracking lifetime is the CONFIGURED JWTTrackedRequestCodec.MaxAge, the session lifetime the configured JWTSessionCodec.MaxAge; a response older than MaxIssueDelay presented with a still-fresh tracking cookie is not judged (C02)",
 		"when the user answers later than the tracking lifetime the IdP tool still accepts the old AuthnRequest (its own freshness limit is lifted for that call) and issues a fresh response",
 	},
